@@ -134,6 +134,18 @@ func opRngs(f []string) string {
 	obsRanges(&o, l, qi, qv)
 	o.Add("str", hx(l.String()))
 	o.Add("reparse", framesOrErr(l.String()))
+	// the normalised container is a value of its own: appending to it and to the receiver
+	// afterwards must not disturb either (observed last; the receiver's answers are taken above)
+	alias := true
+	if ln := l.Len(); ln > 0 && ln <= 20000 {
+		hi := l.Max()
+		n := l.Normalized()
+		n.AppendUnique(hi+1000, hi+1002, 1)
+		nlen := n.Len()
+		l.AppendUnique(hi+2000, hi+2005, 1)
+		alias = n.Len() == nlen && n.Contains(hi+1001) && !n.Contains(hi+2001) && l.Contains(hi+2001) && !l.Contains(hi+1001) && l.Len() == ln+6
+	}
+	o.Add("alias", showBool(alias))
 	return o.String()
 }
 
@@ -145,6 +157,12 @@ func (v frameSetView) Index(f int) int          { return v.fs.Index(f) }
 func (v frameSetView) Contains(f int) bool      { return v.fs.HasFrame(f) }
 
 func obsFrameSet(o *Obs, fs *fileseq.FrameSet, qi, qv []int) {
+	if fs.Len() <= 20000 {
+		// Normalize / Invert / InvertedFrameRange answer about the set; they must leave it alone
+		_ = fs.Normalize()
+		_ = fs.Invert()
+		_ = fs.InvertedFrameRange(0)
+	}
 	o.Add("len", strconv.Itoa(fs.Len()))
 	o.Add("start", strconv.Itoa(fs.Start()))
 	o.Add("fin", strconv.Itoa(fs.End()))
